@@ -13,7 +13,7 @@ use qrlew::rewriting::rewriting_rule::{
 };
 use qrlew::visitor::Acceptor;
 use serde_json::json;
-use std::collections::BTreeSet;
+use std::collections::{BTreeSet, HashMap};
 
 #[derive(Clone, Copy, PartialEq)]
 pub enum Which {
@@ -395,6 +395,64 @@ pub fn check(which: Which, sql: &str, w: &DpWorld, with_sd: bool, strategy: Stra
                             }
                         }
                         _ => {}
+                    }
+                }
+                // label flow over the applied derivation itself: each node's rule must consume the labels its
+                // children's rules produce, and nothing labelled public / published may derive from a
+                // protected table without a PUP -> DP reduce in between
+                {
+                    let mut by_name: HashMap<String, (Vec<String>, String)> = HashMap::new();
+                    for e in c.events.iter().filter(|e| e.kind == "rewrite_node") {
+                        let rule = e.str("rule").unwrap_or("");
+                        let (ins, out) = match rule.rsplit_once("→") {
+                            Some((a, b)) => (a.split(',').map(|x| x.trim().to_string()).filter(|x| !x.is_empty()).collect::<Vec<_>>(), b.trim().to_string()),
+                            None => (vec![], rule.trim().to_string()),
+                        };
+                        by_name.insert(e.str("name").unwrap_or("").to_string(), (ins, out));
+                    }
+                    // post-order over the original relation
+                    fn flow(
+                        n: &Relation,
+                        by_name: &HashMap<String, (Vec<String>, String)>,
+                        protected: &dyn Fn(&Relation) -> bool,
+                        problems: &mut Vec<(String, String)>,
+                    ) -> Option<(String, bool)> {
+                        let kids: Vec<Option<(String, bool)>> = n.inputs().iter().map(|k| flow(k, by_name, protected, problems)).collect();
+                        let (ins, out) = by_name.get(n.name())?.clone();
+                        let kid_labels: Vec<String> = kids.iter().map(|k| k.as_ref().map(|x| x.0.clone()).unwrap_or_else(|| "?".into())).collect();
+                        if !kids.is_empty() && kids.iter().all(|k| k.is_some()) && ins != kid_labels {
+                            problems.push((
+                                format!("C02|applied-derivation|{} rule consumes labels its inputs do not have", kind_of(n)),
+                                format!("node {} was rewritten with rule {:?} → {} but its inputs were rewritten to {:?}", n.name(), ins, out, kid_labels),
+                            ));
+                        }
+                        let raw = if matches!(n, Relation::Table(_)) {
+                            protected(n) && out != "SD"
+                        } else if matches!(n, Relation::Reduce(_)) && out == "DP" && ins == ["PUP".to_string()] {
+                            false
+                        } else {
+                            kids.iter().any(|k| k.as_ref().map_or(false, |x| x.1))
+                        };
+                        if raw && (out == "Pub" || out == "Pubd" || (out == "DP" && matches!(n, Relation::Table(_)))) {
+                            problems.push((
+                                format!("C02|applied-derivation|{} labelled {} derives from protected rows without a DP aggregation in between", kind_of(n), out),
+                                format!("node {} ({} → {})", n.name(), ins.join(", "), out),
+                            ));
+                        }
+                        if raw && out == "SD" {
+                            problems.push((
+                                format!("C02|applied-derivation|{} labelled SD derives from real protected rows", kind_of(n)),
+                                format!("node {} ({} → {})", n.name(), ins.join(", "), out),
+                            ));
+                        }
+                        Some((out, raw))
+                    }
+                    let mut problems = vec![];
+                    flow(&rel, &by_name, &protected, &mut problems);
+                    rep.count("applied_derivations_label_flow_checked");
+                    if let Some((sig, detail)) = problems.into_iter().next() {
+                        rep.violation(sig, detail, case());
+                        return;
                     }
                 }
                 // the root label of the applied derivation is acceptable
